@@ -659,7 +659,7 @@ pub fn run(ctx: &Ctx) -> ! {
     let rule = "non-trivial = >=17 non-empty fact-index writes on one ancestry line (so LinearStorage::compact ran) or a delete of a fact whose value lives in an older index";
     rep.explore(
         "mem_every_step",
-        &format!("in-memory LinearStorageProvider: init perspective + 0..30 ops (fact insert/delete incl. live keys, add_command, write segment [+commit], open linear perspective at any stored command, fact perspective + write_facts + merge perspective, commit+re-verify); after EVERY op all exact/prefix queries of the case's key universe on the live perspective, after every segment write on segment.facts() and on get_fact_perspective/get_linear_perspective at every command of it, at the end on everything stored; {rule}"),
+        &format!("in-memory LinearStorageProvider: init perspective + 0..30 ops (fact insert/delete incl. live keys, add_command, write segment [+commit], open linear perspective at any stored command, fact perspective + write_facts + merge perspective, commit+re-verify); after EVERY op all exact/prefix queries of the case's key universe on the live perspective, after every segment write on segment.facts(), on get_fact_perspective at every command of it and on get_linear_perspective at every mid-segment command (the one at the head is checked when it is next opened), at the end again on every stored segment's fact index and mid-segment fact perspectives; {rule}"),
         || general(30),
         ctx.pick(1_200, 15_000),
         check_mem(2),
